@@ -34,6 +34,7 @@ type trace struct {
 	Mode    string    `json:"mode"` // sched (seeded scheduler at the f gates) | free (no gates, real concurrency)
 	Variant string    `json:"variant"`
 	Be      string    `json:"be"`
+	Limit   int       `json:"limit"` // the store's retry limit in this run
 	N       int       `json:"n"`
 	M       int       `json:"m"`
 	Ev      [][]tstep `json:"ev"`
@@ -374,10 +375,14 @@ func doRecord(t *testing.T, res *abs.Result) {
 				if tr.Be == "multi" {
 					tr.Be = strings.SplitN(strings.TrimPrefix(variant, "multi/"), "+", 2)[0]
 				}
+				tr.Limit = 10
+				if !fixedLimit(variant) { // a small limit: calls do exhaust their retries on conflicts alone
+					tr.Limit = 2 + id%2
+				}
 				tseed := rng.Int63n(1 << 40)
 				var rerr error
 				run := func() {
-					st, err := openStore(context.Background(), variant, 10)
+					st, err := openStore(context.Background(), variant, tr.Limit)
 					if err != nil {
 						rerr = err
 						return
